@@ -74,6 +74,19 @@ def run(args) -> int:
             if not prems:
                 prems = [concl]
             jobs.append(dict(logic=L['name'], premises=prems, conclusion=concl, configs=cf, timeout_ms=2000))
+    # identity arguments whose proof needs substitution into several predicated nodes, in every premise order
+    a_, b_ = ['c', 0, 0], ['c', 1, 0]
+    Id = lambda x, y: ['P', -1, 0, [x, y]]
+    F = lambda x: ['P', 0, 0, [x]]
+    import itertools as _it
+    for L in logics:
+        if 'SelfIdentityClosure' not in L['closure']:
+            continue
+        for second in (Id(a_, a_), Id(b_, b_), Id(b_, a_)):
+            base = [Id(a_, b_), second, F(a_)]
+            for perm in _it.permutations(base):
+                jobs.append(dict(logic=L['name'], premises=list(perm), conclusion=F(b_), configs=cf[:1] + cf[-3:-2],
+                                 timeout_ms=2000, group_key=f"ident:{L['name']}:{json.dumps(second)}"))
     for i, j in enumerate(jobs):
         j['id'] = i
     orders = [0, 1] if args.tier == 'quick' else [0, 1, 2, 3]
@@ -86,8 +99,9 @@ def run(args) -> int:
                 chk.violation(f'raise:{n}:{r.get("error", "").split(":")[0]}', f"{n}: {r.get('error')}",
                               dict(kind='verdicts', job={k: v for k, v in job.items() if k != 'configs'}, order=order, error=r.get('error')))
                 continue
-            ent = seen.setdefault(job['id'], dict(classes={}, argstr=r['argstr'], logic=n))
-            for c, o in zip(cf, r['outcomes']):
+            ent = seen.setdefault(job.get('group_key') or job['id'], dict(classes={}, argstr=r['argstr'], logic=n, jid=job['id']))
+            for c, o in zip(job['configs'], r['outcomes']):
+                c = dict(c, premise_order=r['argstr']) if job.get('group_key') else c
                 chk.count('outcome', o['cls'].split(':')[0])
                 key = json.dumps([c, order], sort_keys=True)
                 ent['classes'][key] = o['cls']
@@ -104,7 +118,7 @@ def run(args) -> int:
         if len(verdicts) > 1:
             a = next(k for k, v in ent['classes'].items() if v == 'valid')
             b_ = next(k for k, v in ent['classes'].items() if v == 'invalid')
-            cause = attribute(ent, json.loads(b_), jobs[jid])
+            cause = attribute(ent, json.loads(b_), jobs[ent.get('jid', jid) if not isinstance(jid, int) else jid])
             for key in cause:
                 chk.violation(key,
                               f"{ent['logic']}: {ent['argstr']} is valid under {a} but invalid (limit-free open branch) under {b_}"
